@@ -234,6 +234,16 @@ func (db *DB) Session(config *Session) *DB {
 			clone:     1,
 		}
 	)
+	if db.clone == 1 && db.Statement != nil {
+		// the receiver is a blank handle (Open, Session{NewDB: true}, the tx handed to
+		// hooks): what it stands for is a fresh statement, although the pointer it
+		// holds may be the statement of the chain it was taken from.  Derive from a
+		// fresh one, as getInstance does, or that chain's model, clauses and SQL come
+		// back in the derived handle
+		tx.Statement = db.getInstance().Statement
+		tx.Statement.DB = tx
+	}
+
 	if config.CreateBatchSize > 0 {
 		tx.Config.CreateBatchSize = config.CreateBatchSize
 	}
